@@ -61,6 +61,7 @@ Mk(fn) == fn \o <<>>                      \* force a concrete tuple (TLC keeps [
 Range(s) == {s[k] : k \in 1..Len(s)}
 MinOf(S) == CHOOSE x \in S : \A y \in S : x <= y
 Pick(S) == CHOOSE x \in S : TRUE
+Force(fn) == fn @@ [x \in {} |-> 0]       \* a concrete function value (TLC applies a lazy one in O(domain))
 (* TLC passes operator arguments and LET definitions unevaluated and may evaluate them again at every  *)
 (* use.  Heavy values are therefore bound with  Pick({ F(x) : x \in {e} }) : e is evaluated once and   *)
 (* x stands for its value.  (Parameters here are never called `f', `pc', `cur', `holds', `chunk': a      *)
@@ -98,7 +99,10 @@ OvL(ov, l) == IF l >= 1 /\ l <= Len(ov) THEN ov[l] ELSE {l}
 (* case = [mode, nn (number of names), W, S, colour (colour mode: per name *)
 (*         the machine register, 0 = none), blocks (spill mode:            *)
 (*         <<kind 1=load 2=store, reg, slot, <<ids>>>>), pre, post (colour  *)
-(*         mode: ids of frame.instructions around remove_redundant_moves)] *)
+(*         mode: ids of frame.instructions around remove_redundant_moves), *)
+(*         chain (pairs of observations of the instruction list between     *)
+(*         which nothing may have changed: round k -> first rewrite ->      *)
+(*         ... -> round k+1)]                                               *)
 
 RECURSIVE SIdxFrom(_, _, _, _)
 SIdxFrom(S, n, k, acc) ==           \* acc[i] = index in S of the entry with id i (0 = none)
@@ -179,6 +183,7 @@ BuildP(c, ov, n, T) ==
      jumpsOK |-> \A i \in 1..n : T[i].jumpsOK,
      located |-> \A i \in 1..n : T[i].located,
      blocksOK |-> \A i \in 1..n : T[i].blkOK,
+     chainOK |-> \A k \in 1..Len(c.chain) : c.chain[k][1] = c.chain[k][2],
      removedOK |-> IF c.mode = "colour"      \* what remove_redundant_moves saw and left
                    THEN /\ c.pre = Mk([i \in 1..n |-> i])
                         /\ c.post = Mk([k \in 1..Len(c.S) |-> Id(c.S[k])])
@@ -201,11 +206,10 @@ LastDef(seq, x) == CHOOSE k \in 1..Len(seq) : seq[k] = x /\ \A m \in (k + 1)..Le
 
 \* ground truth after executing entry e
 CurAfter(P, e, cu, ho) ==
-    LET defs == Range(e.sd)
-        kill == UNION {OvL(P.ov, c) : c \in e.clob}
-                \cup UNION {OvL(P.ov, d) \ {d} : d \in defs}
-    IN [r \in (DOMAIN cu \ kill) \cup defs |->
-          IF r \in defs THEN DefVal(e, cu, ho, LastDef(e.sd, r)) ELSE cu[r]]
+    Pick({[r \in (DOMAIN cu \ kill) \cup defs |->
+              IF r \in defs THEN DefVal(e, cu, ho, LastDef(e.sd, r)) ELSE cu[r]] :
+          defs \in {Range(e.sd)},
+          kill \in {UNION {OvL(P.ov, c) : c \in e.clob} \cup UNION {OvL(P.ov, d) \ {d} : d \in Range(e.sd)}}})
 
 \* a move from a name without value copies the present content of its location: give that
 \* content an identity if it has none
@@ -216,12 +220,12 @@ Materialise(e, cu, ho) ==
 
 \* implementation state after executing entry e (kind "both")
 HoldsAfter(P, e, cu, ho) ==
-    LET h0 == Materialise(e, cu, ho)
-        defs == Range(e.md) \ {0}
-        kill == UNION {OvL(P.ov, c) : c \in e.clob}
-                \cup UNION {OvL(P.ov, l) \ {l} : l \in defs}
-    IN [l \in (DOMAIN h0 \ kill) \cup defs |->
-          IF l \in defs THEN DefVal(e, cu, ho, LastDef(e.md, l)) ELSE h0[l]]
+    Pick({[l \in (DOMAIN h0 \ kill) \cup defs |->
+              IF l \in defs THEN DefVal(e, cu, ho, LastDef(e.md, l)) ELSE h0[l]] :
+          h0 \in {Force(Materialise(e, cu, ho))},
+          defs \in {Range(e.md) \ {0}},
+          kill \in {UNION {OvL(P.ov, c) : c \in e.clob}
+                    \cup UNION {OvL(P.ov, l) \ {l} : l \in Range(e.md) \ {0}}}})
 
 \* a recorded spill block starting at entry e: one atomic transfer
 BlockHolds(P, e, ho) ==
@@ -235,21 +239,23 @@ BlockHolds(P, e, ho) ==
        ELSE [l \in ((DOMAIN ho \ kill) \ {slot}) \cup (IF V(ho, reg) # 0 THEN {slot} ELSE {}) |->
                IF l = slot THEN ho[reg] ELSE ho[l]]
 
-\* normal form of a state entering position j
+\* normal form of a state entering position j (c1, h1, live must be values, not expressions)
+Norm2(c1, h1, live) ==
+    [cur |-> Force([r \in live |-> MinOf({q \in live : c1[q] = c1[r]})]),
+     holds |-> Force([l \in {x \in DOMAIN h1 : \E r \in live : c1[r] = h1[x]} |->
+                        MinOf({q \in live : c1[q] = h1[l]})])]
 Norm(P, j, c1, h1) ==
-    LET lv == IF j <= P.n THEN P.live[j] ELSE {}
-        live == {r \in DOMAIN c1 : r \in lv /\ c1[r] # 0}
-        vals == {c1[r] : r \in live}
-        rep == [v \in vals |-> MinOf({r \in live : c1[r] = v})]
-    IN [cur |-> [r \in live |-> rep[c1[r]]],
-        holds |-> [l \in {x \in DOMAIN h1 : h1[x] \in vals} |-> rep[h1[l]]]]
+    Pick({Norm2(c1, h1, live) :
+          live \in {{r \in DOMAIN c1 : r \in (IF j <= P.n THEN P.live[j] ELSE {}) /\ c1[r] # 0}}})
 
 ExecTo(P, i, j, cu, ho) ==        \* an instruction present in both programs
-    LET e == P.T[i] IN Norm(P, j, CurAfter(P, e, cu, ho), HoldsAfter(P, e, cu, ho))
+    Pick({Norm(P, j, c1, h1) : c1 \in {Force(CurAfter(P, P.T[i], cu, ho))},
+                                h1 \in {Force(HoldsAfter(P, P.T[i], cu, ho))}})
 RemovedTo(P, i, j, cu, ho) ==     \* specification only: a coalesced move that was deleted
-    LET e == P.T[i] IN Norm(P, j, CurAfter(P, e, cu, ho), Materialise(e, cu, ho))
+    Pick({Norm(P, j, c1, h1) : c1 \in {Force(CurAfter(P, P.T[i], cu, ho))},
+                                h1 \in {Force(Materialise(P.T[i], cu, ho))}})
 BlockTo(P, i, cu, ho) ==          \* implementation only: a load / store block
-    LET e == P.T[i] IN Norm(P, i + e.blkLen, cu, BlockHolds(P, e, ho))
+    Pick({Norm(P, i + P.T[i].blkLen, cu, h1) : h1 \in {Force(BlockHolds(P, P.T[i], ho))}})
 
 ---------------------------------------------------------------------------
 (* The clauses of the property, as state predicates.                       *)
@@ -266,6 +272,16 @@ NoShare(P, cu) ==
     P.mode = "colour" =>
       \A a \in DOMAIN cu : \A b \in DOMAIN cu :
          (a < b /\ cu[a] # cu[b]) => P.loc[b] \notin OvL(P.ov, P.loc[a])
+
+(* The same clause, incrementally.  Locations of names are fixed and values change only where a   *)
+(* name is defined, so a forbidden pair can only appear in the state AFTER an instruction and      *)
+(* must involve a name that instruction defined: given that the clause held before entry i0 was    *)
+(* executed (i0 = 0: the initial state, no name has a value), it holds now iff it holds for the    *)
+(* pairs (d, b) with d defined by entry i0.  (AllocCheck_MC checks that this is NoShare.)           *)
+NoShareStep(P, i0, cu) ==
+    (P.mode = "colour" /\ i0 >= 1 /\ i0 <= P.n) =>
+      \A d \in P.T[i0].def \cap DOMAIN cu : \A b \in DOMAIN cu :
+         (b # d /\ cu[b] # cu[d]) => P.loc[b] \notin OvL(P.ov, P.loc[d])
 
 \* deleting an instruction is legal only for a move within one location
 RemovedOK(P, i) ==
